@@ -58,6 +58,7 @@ type FCase struct {
 func genCase(t *rapid.T) Case {
 	o := gen.DatasetOpts{NowMs: time.Now().UnixNano() / 1e6, MaxKeys: 6, MaxElems: 6}
 	c := Case{File: gen.GenFile(t, o), Cfg: fullsync.GenCfg(t)}
+	c.Cfg.Normalize(c.File.Items)
 	c.File.Checksum = true
 	c.Cfg.KeyExists = "replace"
 	if c.Cfg.TargetVer < "5" {
